@@ -1,20 +1,5 @@
 // harness: c18_event_id::c18_restart_clock_regress_witness (feature c18)
 // replay: cd /verif && ./check --replay /verif/evidence/replays/C18/c18_restart_clock_regress_witness.rs
-/// Test generated for harness `c18_event_id::c18_restart_clock_regress_witness` 
-///
-/// Check for `assertion`: ""first id after a restart exceeds the ids of the previous lifetime""
-///
-/// # Warning
-///
-/// Concrete playback tests combined with stubs or contracts is highly
-/// experimental, and subject to change.
-///
-/// The original harness has stubs which are not applied to this test.
-/// This may cause a mismatch of non-deterministic values if the stub
-/// creates any non-deterministic value.
-/// The execution path may also differ, which can be used to refine the stub
-/// logic.
-
 #[test]
 fn kani_concrete_playback_c18_restart_clock_regress_witness_9430928690219793070() {
     let concrete_vals: Vec<Vec<u8>> = vec![
